@@ -177,7 +177,10 @@ SwitchArm(F, i, ptr, arms) ==
 (* Every method of the scenario programs increments the counter of its      *)
 (* receiver and returns the counter it then sees, so a program observes     *)
 (* whether two successive calls worked on the same object.  A probe is a    *)
-(* short sequence of steps on ONE target object:                            *)
+(* short sequence of steps on ONE target object (the embedded object the     *)
+(* selector's path leads to; afterwards the program reads that object's      *)
+(* counter again through the variable, so a call that reached the right     *)
+(* method of the WRONG embedded object is seen too):                         *)
 (*   "bind"  evaluate a method value f := x.m   (Method values: "the        *)
 (*           expression x is evaluated and saved during the evaluation of   *)
 (*           the method value; the saved copy is then used as the receiver  *)
@@ -201,10 +204,11 @@ NeedsPtrSet(form) == form \in {"direct", "ifaceP", "mvalV", "mvalP", "mvalIP", "
 \* saved operand is an interface holding a pointer (then the copy is made at each call)
 BindCopies(form, recv) == recv = "v" /\ form \in {"mvalV", "mvalP", "mvalIV"}
 
-\* st = [c: counter of the target object, saved: counter inside the bound copy or -1, out: results]
+\* st = [c: counter of the target object, saved: counter inside the bound copy or -1, out: results];
+\* the observation is <<result of call 1, result of call 2, counter of the object afterwards>>
 RECURSIVE RunSteps(_, _, _, _, _)
 RunSteps(steps, k, form, recv, st) ==
-  IF k > Len(steps) THEN st.out
+  IF k > Len(steps) THEN <<st.out[1], st.out[2], st.c>>
   ELSE LET s == steps[k] IN
     RunSteps(steps, k + 1, form, recv,
       CASE s = "bind" -> [st EXCEPT !.saved = IF BindCopies(form, recv) THEN st.c ELSE -1]
@@ -218,7 +222,7 @@ Observe(form, recv) == RunSteps(Steps(form), 1, form, recv, [c |-> 0, saved |-> 
 \* the probes of a family: every (type, method, form) whose operand has the method
 Applicable(F, i, mid, form) == InMethodSet(Lookup(F, i, mid), NeedsPtrSet(form))
 Dispatch(F, i, mid, form) ==
-  LET r == Lookup(F, i, mid) IN [target |-> r.ty, recv |-> r.recv, seen |-> Observe(form, r.recv)]
+  LET r == Lookup(F, i, mid) IN [target |-> r.ty, recv |-> r.recv, path |-> r.path, seen |-> Observe(form, r.recv)]
 
 -----------------------------------------------------------------------------
 (* Interface equality: "Two interface values are equal if they have         *)
@@ -358,7 +362,7 @@ SpecOK(F) ==
               \A ptr \in BOOLEAN : Implements(F, i, ptr, q) => Implements(F, i, ptr, F.ifaces[q].emb[k])
     /\ \A j \in 1..NT(F) : IdenticalNamed(F, i, j) = (i = j)                     \* distinct declarations, distinct types
     /\ \A form \in Range(Forms) :                                                \* a pointer receiver always shares, a value receiver never
-         /\ Observe(form, "p")[2] = Observe(form, "p")[1] + 1
-         /\ Observe(form, "v")[2] = Observe(form, "v")[1]
+         /\ Observe(form, "p")[2] = Observe(form, "p")[1] + 1 /\ Observe(form, "p")[3] = Observe(form, "p")[2]
+         /\ Observe(form, "v")[2] = Observe(form, "v")[1] /\ Observe(form, "v")[3] \in {0, 1}
 
 =============================================================================
